@@ -1,18 +1,6 @@
 ---------------------------- MODULE P8scii ----------------------------
-(* The 256-entry P8SCII -> Unicode code. T is read from the working tree at check time. *)
-EXTENDS Naturals, Sequences, SequencesExt, FiniteSets, TLC, Json, IOUtils
-T == JsonDeserialize(IOEnv.TABLE_FILE)        \* sequence of 256 sequences of code points; T[b+1]
-Injective == \A a, b \in 1..256 : T[a] = T[b] => a = b
-PrefixFree == \A a, b \in 1..256 : a # b => ~IsPrefix(T[a], T[b])
-Scalar(cp) == cp >= 0 /\ cp <= 1114111 /\ ~(cp >= 55296 /\ cp <= 57343)
-Encodable == \A a \in 1..256 : Len(T[a]) >= 1 /\ \A k \in 1..Len(T[a]) : Scalar(T[a][k])
-Encode(bs) == IF bs = <<>> THEN <<>> ELSE FoldLeft(LAMBDA acc, b : acc \o T[b + 1], <<>>, bs)
-\* greedy decoder: the unique entry that is a prefix of the remaining text
-RECURSIVE Decode(_)
-Decode(u) == IF u = <<>> THEN <<>> ELSE
-   LET C == {a \in 1..256 : IsPrefix(T[a], u)} IN
-     IF Cardinality(C) # 1 THEN << 0 - 1 >>
-     ELSE LET a == CHOOSE a \in C : TRUE IN <<a - 1>> \o Decode(SubSeq(u, Len(T[a]) + 1, Len(u)))
+(* Exhaustive check of the code table: TableOK once, PairRoundTrip for all 65536 byte pairs. *)
+EXTENDS P8sciiTable
 VARIABLES x, y
 Init == x \in 0..255 /\ y \in 0..255
 Next == UNCHANGED <<x, y>>
